@@ -35,8 +35,8 @@ def kani(name, props, clause, fn, tier="quick", timeout=600, bounded=None, pkg="
 
 
 def native(name, props, clause, fn, test, tier="quick", timeout=240, pkg="bemodel", crash=False, scope=None,
-           timeout_thorough=1500):
-    return {"backend": N, "name": name, "props": props, "clause": clause, "fn": fn, "test": test, "tier": tier,
+           timeout_thorough=1500, bins=False):
+    return {"bins": bins, "backend": N, "name": name, "props": props, "clause": clause, "fn": fn, "test": test, "tier": tier,
             "timeout": timeout, "timeout_thorough": timeout_thorough, "pkg": pkg, "crash_is_violation": crash,
             "scope": scope}
 
@@ -93,6 +93,9 @@ OBLIGATIONS = [
     # ---- C17 / C03 (convert) -------------------------------------------------------------------------
     kani("c17_day_of_year", ["C17"], "C17.doy", "convert::from_ctehexml::day_of_year"),
     kani("c03_azimuth_convention", ["C03"], "C03.azimuth", "convert::orientation_bdl_to_52016"),
+    kani("c03_mirror_y_0", ["C03", "C19"], "C03.mirror.empty", "hulc::bdl::Polygon::mirror_y", pkg="hulc", bounded="polygon without vertices", timeout=600),
+    kani("c03_edge_vertices_0", ["C03", "C19"], "C03.edge_vertices", "hulc::bdl::Polygon::edge_vertices", pkg="hulc", bounded="polygon without vertices, 9 vertex names", timeout=600),
+    kani("c03_edge_vertices_4", ["C03", "C19"], "C03.edge_vertices", "hulc::bdl::Polygon::edge_vertices", pkg="hulc", bounded="polygon of 4 vertices (symbolic coordinates), 9 vertex names", timeout=600),
     kani("c03_mirror_y_1", ["C03"], "C03.mirror", "hulc::bdl::Polygon::mirror_y", pkg="hulc", bounded="polygon of 1 vertices, symbolic coordinates", timeout=600),
     kani("c03_mirror_y_3", ["C03"], "C03.mirror", "hulc::bdl::Polygon::mirror_y", pkg="hulc", bounded="polygon of 3 vertices, symbolic coordinates", timeout=600),
     kani("c03_mirror_y_4", ["C03"], "C03.mirror", "hulc::bdl::Polygon::mirror_y", pkg="hulc", bounded="polygon of 4 vertices, symbolic coordinates", timeout=600),
@@ -107,6 +110,8 @@ OBLIGATIONS = [
     native("n_c08_kdata_walls", ["C08"], "C08.kdata.walls", "KData::from(&EnergyProps)", EN + "n_c08_kdata_walls"),
     native("n_c08_kdata_windows", ["C08"], "C08.kdata.windows", "KData::from(&EnergyProps)", EN + "n_c08_kdata_windows"),
     native("n_c08_kdata_bridges", ["C08"], "C08.kdata.bridges", "KData::from(&EnergyProps)", EN + "n_c08_kdata_bridges"),
+    native("n_c04_roundtrip", ["C04"], "C04.roundtrip", "Model::as_json / Model::from_json (serde derive attributes of every model type)", RN + "n_c04_roundtrip"),
+    native("n_c04_shipped_models", ["C04"], "C04.shipped", "Model::from_json / Model::as_json on bemodel/tests/data/*.json", RN + "n_c04_shipped_models"),
     native("n_c11_poly", ["C11"], "C11.poly", "Polygon::area / Polygon::perimeter", RN + "n_c11_poly"),
     native("n_c11_poly_large", ["C11"], "C11.poly.large", "Polygon::area / Polygon::perimeter", RN + "n_c11_poly_large"),
     native("n_c11_height_net", ["C11", "C09"], "C11.height_net", "Space::height_net / EnergyProps::from (vol_env_net)", RN + "n_c11_height_net"),
@@ -133,6 +138,23 @@ OBLIGATIONS = [
     native("n_c17_week_expand", ["C17"], "C17.week.expand", "ScheduleWeek::to_day_sch", RN + "n_c17_week_expand"),
     native("n_c17_year_expand", ["C17"], "C17.year.expand", "SchedulesDb::get_year_as_day_sch / year_values", RN + "n_c17_year_expand"),
     native("n_c17_occupancy", ["C17"], "C17.occupancy", "EnergyProps::from(&Model) (occ_spaces_hours_in_use, occ_spaces_average_load, loads_avg)", RN + "n_c17_occupancy"),
+    native("n_c02_shipped_closed", ["C02"], "C02.shipped", "hulc::ctehexml::parse_with_catalog / bdl::Data::new_from_path + Model::try_from (IdMaps, cons_from_bdl, spaces/walls/windows/schedules/loads/thermostats_from_bdl) + checks::check", CV + "n_c02_shipped_closed"),
+    native("n_c02_broken_refs", ["C02"], "C02.broken", "hulc::ctehexml::parse_with_catalog + Model::try_from on projects with one dangling name", CV + "n_c02_broken_refs"),
+    native("n_c05_convert_repeat", ["C05"], "C05.convert", "hulc::ctehexml::parse_with_catalog + Model::try_from + Model::as_json (uuid_from_obj ids, collection order)", CV + "n_c05_convert_repeat", timeout=600),
+    native("n_c05_ids_local", ["C05"], "C05.ids", "bemodel::utils::uuid_from_obj / IdMaps::new (ids from the element's own definition)", CV + "n_c05_ids_local", timeout=600),
+    native("n_c05_reference_models", ["C05"], "C05.reference", "hulc::ctehexml::parse_with_catalog + Model::try_from against bemodel/tests/data/*.json", CV + "n_c05_reference_models"),
+    native("n_c05_indicators_history", ["C05"], "C05.indicators", "Model::energy_indicators (global climate / radiation tables behind Mutex / lazy statics)", CV + "n_c05_indicators_history", timeout=900),
+    native("n_c01_export_tool", ["C01"], "C01.export", "hulc2model::cli::cli_main (the built hulc2model binary), thor main (the built thor binary) against hulc2model::collect_hulc_data / Model::try_from", "verif_hulc2model::n::n_c01_export_tool", pkg="hulc2model", bins=True, timeout=900),
+    native("n_c19_extra_files", ["C19"], "C19.extra_files", "hulc2model::collect_hulc_data -> fix_ecdata_from_extra (hulc::kyg::parse_from_path, hulc::tbl::parse)", "verif_hulc2model::n::n_c19_extra_files", pkg="hulc2model", timeout=900, timeout_thorough=6000),
+    native("n_c18_blocks", ["C18"], "C18.blocks", "hulc::bdl::build_blocks (sanitize_lider_data, clean_lines, BdlBlock::from_str, parse_attributes, AttrMap::insert, extract_namesvec, extract_f32vec)", "bdl::verif_hulc_bdl::n::n_c18_blocks", pkg="hulc", timeout=900, timeout_thorough=6000),
+    native("n_c18_relayout_real", ["C18"], "C18.relayout", "hulc::bdl::Data::new (block parser + typed elements: Space, Wall, Window, Polygon, Shading, ThermalBridge, Floor, Material, WallCons, WinCons, Glass, Frame, schedules)", "bdl::verif_hulc_bdl::n::n_c18_relayout_real", pkg="hulc", timeout=900, timeout_thorough=6000),
+    native("n_c18_typed", ["C18"], "C18.typed", "hulc::bdl::Data::new: TryFrom<BdlBlock> for Window / Wall / Space / Polygon / Material / WallCons / Glass / Frame / WinCons / Shading / ThermalBridge", "bdl::verif_hulc_bdl::n::n_c18_typed", pkg="hulc"),
+    native("n_c18_tbl_layout", ["C18"], "C18.tbl", "hulc::tbl::parse", "bdl::verif_hulc_bdl::n::n_c18_tbl_layout", pkg="hulc"),
+    native("n_c18_results_values", ["C18"], "C18.results", "hulc::kyg::parse, hulc::tbl::parse (Element::from_str)", "bdl::verif_hulc_bdl::n::n_c18_results_values", pkg="hulc"),
+    native("n_c18_kyg_layout", ["C18"], "C18.kyg", "hulc::kyg::parse", "bdl::verif_hulc_bdl::n::n_c18_kyg_layout", pkg="hulc"),
+    native("n_c19_projects", ["C19"], "C19.projects", "hulc::ctehexml::parse_with_catalog (roxmltree, bdl::Data::new, block / attribute parsers, geometry) + Model::try_from", CV + "n_c19_projects", timeout=900, timeout_thorough=14000),
+    native("n_c19_legacy", ["C19"], "C19.legacy", "hulc::bdl::Data::new + Model::try_from on legacy LIDER files", CV + "n_c19_legacy", timeout=900, timeout_thorough=14000),
+    native("n_c19_results", ["C19"], "C19.results", "hulc::kyg::parse, hulc::tbl::parse", CV + "n_c19_results", timeout=600, timeout_thorough=3000),
     native("n_c03_conversion", ["C03"], "C03.conversion", "hulc::ctehexml::parse_with_catalog + Model::try_from (wall_geometry, windows_and_shades_from_bdl, shades_from_bdl, compute_wall_angle_with_space_north, Polygon::edge_vertices / edge_normal_to_y / mirror_y / rotate)", CV + "n_c03_conversion"),
     native("n_c17_convert_year", ["C17"], "C17.convert.year", "convert::schedules_from_bdl / day_of_year", CV + "n_c17_convert_year"),
     native("n_c17_convert_week_day", ["C17"], "C17.convert.week", "convert::schedules_from_bdl", CV + "n_c17_convert_week_day"),
@@ -159,6 +181,12 @@ OBLIGATIONS = [
 ]
 
 PROPERTIES = {
+    "C18": {"level": "exploration"},
+    "C01": {"level": "exploration"},
+    "C19": {"level": "exploration"},
+    "C05": {"level": "exploration"},
+    "C02": {"level": "exploration"},
+    "C04": {"level": "exploration"},
     "C03": {"level": "proof", "undecided_clauses": ["global positions within 1 cm, outward normals, shade corner points, rotation of the whole building: all run through Rotation3/Rotation2 (sin/cos) - no contract within reach decides them"]},
     "C06": {"level": "proof", "undecided_clauses": ["numeric value of the EN ISO 13370 slab and basement-wall formulas (ln): only panic-freedom and the not-buried identities are proved; values are checked by the bounded obligation C06.ground"]},
     "C07": {"level": "proof"},
@@ -176,16 +204,28 @@ PROPERTIES = {
 }
 
 NOT_APPLICABLE = [
-    {"property_id": "C01", "reason": "the observable is the byte stream on stdout and the exit status of two binaries; neither Kani nor Verus models process I/O, so 'writes exactly one JSON document and nothing else' is not expressible as a contract on any function"},
-    {"property_id": "C02", "reason": "closure of converted models rests on String-keyed BTreeMap lookups over the parser's Data, md5-of-Debug-text ids and str processing; Kani cannot build a symbolic Data at feasible cost, Verus cannot read the iterator/str code, and id uniqueness is a statement about md5"},
-    {"property_id": "C04", "reason": "JSON round-trip is serde-derive code plus serde_json text formatting/parsing (ryu floats, untagged/flattened enums); which field is paired with which default helper lives in derive attributes no contract can see"},
-    {"property_id": "C05", "reason": "quantifies over processes, 16 threads and call histories; Kani has no thread support, Verus would need the code rewritten onto its permission types; 'the shared tables are never written' is a whole-program frame condition over Lazy<Mutex<..>>"},
-    {"property_id": "C18", "reason": "parser correctness over all documents is str slicing / split / parse::<f32>; Verus has no str byte reasoning and Kani on symbolic text is infeasible beyond a few bytes"},
-    {"property_id": "C19", "reason": "same parser code as C18 with panic-freedom over every single-edit corruption of 77 files: a quantifier over files, not over one function's inputs; no contract within reach expresses it"},
 ]
 
 _TB = "Trusted: rustc, Kani 0.68 + CBMC 6.11 (bit-precise IEEE-754), Verus + Z3, the line-adding injector / verbatim extractor, std collections, nalgebra, uuid. "
 MANIFEST_TEXT = {
+    "C18": {"technique": "contract on build_blocks / bdl::Data::new / kyg::parse / tbl::parse: (a) documents printed from generated abstract descriptions are recovered exactly (own printer, 864 layouts), (b) re-printing a shipped file in another layout does not change the typed data, (c) every typed element agrees with the attribute values of its own block; evaluated on the real parsers (bounded stand-in: neither verifier reasons about str code)",
+            "text": "Bounded: C18.blocks - 200 (thorough 2000) generated descriptions of 1..40 blocks of 28 kinds with 1..6 attributes (number, bare word, quoted text with blanks / commas / accents, name list, number list) printed in 864 layouts (LF / CRLF, comments and blank lines, indentation and trailing blanks, attribute order, 3 number formats, quoted words, 3 list layouts incl. ')' on its own line, legacy preamble): name, type, parent and every attribute value of every block. C18.relayout - the BDL text of the 12 projects and 56 legacy files re-printed line by line in 12 (thorough 432) layouts gives the same bdl::Data. C18.typed - every window, wall, space + polygon, material, layer set, glazing, frame, window construction, rectangular shade and thermal bridge of the 68 files against the values written in its block, with the documented legacy defaults. C18.kyg / C18.tbl - either decimal separator, blanks, line ends. Not covered: blocks without attributes, other spacing around '=', the old KyG column layout.",
+            "note": "The typed oracle reads the written values through the generic block parser, whose own recovery is what C18.blocks checks against the printed description; the printer emits only the layouts listed. " + _TB},
+    "C01": {"technique": "contract on cli_main / thor main (exit status and standard output as postcondition), observed by running the real binaries built from the scratch copy and comparing with collect_hulc_data / Model::try_from called in-process (bounded stand-in; no verifier here models process I/O)",
+            "text": "Bounded: the hulc2model binary on the 12 shipped project directories x {default, --use-extra} exits 0 and its standard output is exactly one JSON document (serde_json rejects any other text around it) that loads as the model the library yields; on an empty directory, a directory without project and a missing one it exits non-zero and writes no JSON; thor -o writes byte-identical library JSON for the 12 project files. 45 process runs per check; nothing is discharged deductively.",
+            "note": "Only the shipped projects are run; 'synthetic projects written by the verifier's BDL printer' of the property text are not generated. " + _TB},
+    "C19": {"technique": "contract 'returns Ok or Err, never panics, returns within 60 s' on parse_with_catalog + Model::try_from, bdl::Data::new, kyg::parse, tbl::parse and collect_hulc_data, evaluated on the real code over single-line damage of every shipped file (bounded stand-in; quick = a seeded slice, thorough = every line)",
+            "text": "Bounded: 8 kinds of single-line damage (line deleted / duplicated, truncation, number -> text / 1e39 / -7, block removed, reference renamed) applied to every 8th line of the 12 .ctehexml projects, every 20th line of the 56 legacy .cte files, every 4th line of the KyG / tbl files and every 6th line of the result files of two projects read through collect_hulc_data (quick, offset by VERIF_SEED); thorough applies them to every line (2.7 million damaged files). Each crash site is its own obligation clause; the crash sites in the unfinished systems parser are listed as known findings, every other site is a violation.",
+            "note": "A crash is identified by source file + normalised panic message, so two unwrap() sites of one file with the same message share an identity. " + _TB},
+    "C02": {"technique": "contract on Model::try_from(&CtehexmlData) written from the statement (result is a closed model with unique ids, or Err - never a panic, never a silently dropped link), evaluated on the natively compiled real parser + converter over the shipped corpus and every single renamed / removed definition (bounded stand-in)",
+            "text": "Bounded: every shipped project (12 .ctehexml, 56 legacy .cte; 62 convert) yields a model whose 15 id collections are duplicate- and nil-free and whose every listed link resolves (own oracle, plus Model::check silent); every referenced definition of every shipped project renamed (two ways) or removed, one at a time (7458 edited projects): the outcome is an error, or a closed model that has lost none of the optional links of the intact project. No obligation is discharged deductively: the converter is String-keyed BTreeMap lookups over the parser's data and md5-of-Debug-text ids, beyond Kani (symbolic Data infeasible) and Verus (iterator / str code).",
+            "note": "Exhaustive only over the shipped corpus and its single-definition edits; uniqueness of md5-derived ids is observed, not proved. " + _TB},
+    "C04": {"technique": "contract on the pair Model::as_json / Model::from_json (from_json(as_json(m)) == m in every field, as_json idempotent, shipped files re-serialise to the same JSON value), enumerated on the real serde code over a model with every element kind and all single / pairs of 34 optional-or-defaulted field flips (bounded stand-in)",
+            "text": "Bounded: a generated model carrying every collection, both material variants, overrides and the 'extra' block, with none / each one / each pair of 34 optional or defaulted fields flipped between absent-or-default and present-and-different (596 distinct models): loading back the serialised text gives a model equal in every field (Debug text of the whole model), and serialising again gives the identical text. The 7 shipped model files load and re-serialise to the same JSON value (numbers compared as f32), no key dropped or added. Nothing is proved deductively: the behaviour lives in serde derive attributes and serde_json's number formatting, which neither verifier can read.",
+            "note": "Equality is judged on the Debug rendering (covers every field that derives Debug - all model types do). " + _TB},
+    "C05": {"technique": "contracts on Model::try_from + as_json (a function of the project text only) and Model::energy_indicators (a function of the model only), evaluated on the real code by repetition, a fresh process, 16 threads and all ordered pairs of histories (bounded stand-in); no verifier here reasons about threads or processes",
+            "text": "Bounded: each of the 12 shipped projects converts to byte-identical JSON twice in one process, in a fresh process and on 16 threads at once; adding an unrelated library definition (14 block kinds x 3 positions x 12 projects) changes no existing id; the 6 (project, reference model) pairs of the Makefile convert exactly to the shipped models; indicators of each of the 7 shipped models are the same JSON value alone, after any other model, and on 16 threads. Key order of map-typed results is not compared (not a value).",
+            "note": "Concurrency is sampled by running, not explored: a race that needs a particular interleaving can be missed. " + _TB},
     "C03": {"technique": "Kani proof harnesses on the real angle-convention functions (full float domain) and Polygon::mirror_y (<=5 vertices)",
             "text": "Narrow claim: only the angle-convention leaves of the conversion are decided - orientation_bdl_to_52016 lies in [-180,180] and is congruent to 180-a (mod 360) for every float in [-1080,1080], turning the building by d shifts every converted azimuth by -d, mirror_y keeps vertex 0 / reverses the rest / negates y. Positions, normals and rotations (trigonometry) are listed as undecided in the evidence.",
             "note": _TB + "Nothing is claimed through sin/cos (nondeterministic in Kani)."},
